@@ -447,8 +447,10 @@ def finish(ctx):
         new_viol += 1
         exit_code = 1
     elif ctx.broken:
-        # concrete violation already reported; mention the broken obligations in its replay for context
-        pass
+        # concrete violation already reported; keep what no longer checks next to it for context
+        rp = os.path.join(VERIF, "replay", "%s_broken_context.json" % ctx.pid)
+        json.dump({"property": ctx.pid, "no_longer_checks": [{"kind": b[0], "name": b[1], "detail": b[2]} for b in ctx.broken]},
+                  open(rp, "w"), indent=1, default=str)
     ev = {"property_id": ctx.pid, "tier": ctx.tier, "seed": ctx.seed, "level": ctx.level,
           "coverage": ctx.coverage, "assumptions": ctx.assumptions,
           "wall_s": round(time.time() - ctx.t0, 2), "violations": new_viol}
